@@ -525,7 +525,127 @@ fn unique_metric(idx: usize, len: usize) -> Vec<u8> {
     v
 }
 
+/// The public writer over the standard library's own writers (BufWriter, LineWriter - they advertise vectored writes and
+/// take slices only partially when their own small buffer says so) instead of a scripted one: the individual writes are
+/// re-chunked by the writer in between, so the judge is the byte STREAM that has reached the bottom once everything is
+/// flushed and dropped: the accepted metrics in order, each followed by the terminator unless it went out alone (C05, C06).
+fn std_inner_case(j: &mut Judge, cs: u64) {
+    #[derive(Clone)]
+    struct Rec(Arc<std::sync::Mutex<Vec<u8>>>);
+    impl Write for Rec {
+        fn write(&mut self, b: &[u8]) -> io::Result<usize> {
+            self.0.lock().unwrap().extend_from_slice(b);
+            Ok(b.len())
+        }
+        fn flush(&mut self) -> io::Result<()> {
+            Ok(())
+        }
+    }
+    let mut r = Rng::new(cs);
+    let cap = r.range(0, 24) as usize;
+    let term: &str = *r.pick(&["\n", "", "\r\n", "||"]);
+    let k = r.range(0, (cap + 3) as u64) as usize;
+    let kind = r.below(3);
+    let bottom = Rec(Arc::new(std::sync::Mutex::new(Vec::new())));
+    let nops = r.range(2, 30) as usize;
+    let mut lens = Vec::new();
+    for _ in 0..nops {
+        lens.push(match r.below(6) {
+            0 => cap.saturating_sub(term.len()),                 // fills the empty buffer exactly
+            1 => cap.saturating_sub(term.len()).saturating_sub(1),
+            2 => cap.saturating_sub(term.len()) + 1,             // just too large: goes out alone
+            3 => 0,
+            _ => r.range(0, (cap + 4) as u64) as usize,
+        });
+    }
+    let mut expected: Vec<u8> = Vec::new();
+    let mut bad: Option<String> = None;
+    fn drive<W: Write>(w: W, cap: usize, term: &str, lens: &[usize], r: &mut Rng, expected: &mut Vec<u8>, bad: &mut Option<String>) {
+        let mut wr = MultiLineWriter::with_ending(w, cap, term);
+        let mut pending: Vec<u8> = Vec::new();
+        let mut written = 0usize; // the writer's own fill count (pieces handed through count too, until the next flush)
+        for (i, len) in lens.iter().enumerate() {
+            let m = unique_metric(i, *len);
+            match panics::guard(|| wr.write(&m)) {
+                Ok(Ok(n)) if n == m.len() => {
+                    let req = m.len() + term.len();
+                    if req > cap {
+                        // goes out alone, at once (ahead of what is still buffered)
+                        expected.extend_from_slice(&m);
+                    } else {
+                        if cap - written.min(cap) < req {
+                            expected.append(&mut pending);
+                            written = 0;
+                        }
+                        written += req;
+                        // (a piece as large as the whole buffer is handed through by the BufWriter inside, after what
+                        // it holds: the stream order stays, only the moment differs - which matters when an oversize
+                        // metric follows, since that one goes ahead of whatever is still buffered)
+                        for piece in [&m[..], term.as_bytes()] {
+                            if piece.len() >= cap {
+                                expected.append(&mut pending);
+                                expected.extend_from_slice(piece);
+                            } else {
+                                pending.extend_from_slice(piece);
+                            }
+                        }
+                    }
+                }
+                other => {
+                    *bad = Some(format!("write of {} bytes over a writer that accepts everything returned {:?}", m.len(), other.map(|x| x.map_err(|e| e.to_string()))));
+                    return;
+                }
+            }
+            if r.chance(1, 5) {
+                if !matches!(panics::guard(|| wr.flush()), Ok(Ok(()))) {
+                    *bad = Some("flush over a writer that accepts everything failed".into());
+                    return;
+                }
+                expected.append(&mut pending);
+                written = 0;
+            }
+        }
+        if !matches!(panics::guard(|| wr.flush()), Ok(Ok(()))) {
+            *bad = Some("the last flush over a writer that accepts everything failed".into());
+        }
+        expected.append(&mut pending);
+        drop(wr);
+    }
+    let name = match kind {
+        0 => {
+            drive(io::BufWriter::with_capacity(k, bottom.clone()), cap, term, &lens, &mut r, &mut expected, &mut bad);
+            "std::io::BufWriter"
+        }
+        1 => {
+            drive(io::LineWriter::with_capacity(k, bottom.clone()), cap, term, &lens, &mut r, &mut expected, &mut bad);
+            "std::io::LineWriter"
+        }
+        _ => {
+            drive(bottom.clone(), cap, term, &lens, &mut r, &mut expected, &mut bad);
+            "a plain writer"
+        }
+    };
+    j.rep.eval();
+    j.rep.obs("histories_over_the_standard_librarys_own_writers", 1);
+    j.rep.distinct(&format!("W1-std|{}|{}|{}|{}", kind, cap.min(9), term.len(), k.min(5)));
+    let got = bottom.0.lock().unwrap().clone();
+    if bad.is_none() && got != expected {
+        let at = got.iter().zip(expected.iter()).position(|(a, b)| a != b).unwrap_or(got.len().min(expected.len()));
+        bad = Some(format!("after the last flush and the drop the bytes that reached the bottom differ from the accepted metrics with their terminators: {} bytes instead of {}, first difference at byte {} (lengths emitted: {:?})", got.len(), expected.len(), at, lens));
+    }
+    if let Some(b) = bad {
+        if j.prop == "C05" || j.prop == "C06" {
+            let p = j.prop.clone();
+            j.rep.violation(Violation { property: p, rule: "F1".into(), class: "stream-differs".into(), detail: format!("[W1 over {} (its capacity {}) cap={} term={:?}] {}", name, k, cap, term, b), replay_args: j.args.to_vec_with(&[("std-case", cs.to_string())]), trace: Json::Null });
+        }
+    }
+}
+
 fn mode_random(j: &mut Judge) {
+    if let Some(cs) = j.args.get("std-case").and_then(|s| s.parse::<u64>().ok()) {
+        std_inner_case(j, cs);
+        return;
+    }
     let seed = j.args.u64("seed", 1);
     let shard = j.args.u64("shard", 0);
     let cases = j.args.u64("cases", 1000);
@@ -535,6 +655,9 @@ fn mode_random(j: &mut Judge) {
         let cs = only.unwrap_or_else(|| mix(&[seed, 0xF4A3, shard, i]));
         let mut r = Rng::new(cs);
         random_case(j, &mut r, faults, vec![("mode", "random".into()), ("case-seed", cs.to_string()), ("cases", "1".into())], 2000);
+        if only.is_none() && !faults && i % 4 == 0 {
+            std_inner_case(j, cs ^ 0x57D);
+        }
         if only.is_some() || j.rep.violation_count >= 12 {
             break;
         }
